@@ -233,6 +233,9 @@ class Poll(BasePoller):
 
     def _updateRegistration(self, fd):
         fileno = fd.fileno() if not isinstance(fd, int) else fd
+        if fileno == -1:
+            # already closed: find the number it is still registered under
+            fileno = next((k for k, v in self._map.items() if v == fd), -1)
 
         with contextlib.suppress(KeyError, ValueError):
             self._poller.unregister(fileno)
